@@ -4,7 +4,9 @@ import c01
 MANIFEST = {
     "text": "Actor level: C02_kernel_conservation — for every role table, run and message serial of the kernel model, sends = handled + "
             "dead letters + still pending (nothing invented, nothing lost, across failure, restart, suspension, termination, address reuse), "
-            "C02_send_total (sending never blocks/crashes); kernel tied to the real ActorSystem by lockstep replay with exactly-once / "
+            "C02_send_total (sending never blocks/crashes), C02_kernel_mailbox_order_step/_run (mailbox discipline from any state: a step only "
+            "takes the head of an actor's in-flight+queued user messages — when that actor runs it — and appends at the tail; over a run "
+            "seq' = skipn k seq ++ app, so queued messages keep their order across failure, suspension, restart); kernel tied to the real ActorSystem by lockstep replay with exactly-once / "
             "order monitors. Mailbox level: theorems C02_conservation (pushed = popped ++ queued as lists, for both queues) and C02_no_stranded (when every sender, "
             "resumer, suspender and runner has finished, the system queue is empty and so is the user queue unless suspended: no lost "
             "wake-up) hold in every reachable state of the mailbox machine for any number of threads; tied to both mailbox files by "
